@@ -68,6 +68,7 @@ class Opts:
         self.positive = True          # non-negative rates everywhere (C18)
         self.max_steps = 5
         self.unit_times = False
+        self.small_dt = False         # dt in {1/8, 1/16}: explicit stages stay inside the non-negative orthant
         self.n_requests = 5
         self.force_infection = False
         self.force_strat = False
@@ -201,6 +202,8 @@ class Gen:
         else:
             self.t0 = r.choice([Fr(0), Fr(1), Fr(-2), Fr(1, 2), Fr(10), Fr(3)])
             self.dt = r.choice([Fr(1), Fr(1, 2), Fr(1, 4), Fr(2), Fr(3, 2), Fr(1)])
+            if o.small_dt:
+                self.dt = r.choice([Fr(1, 8), Fr(1, 16)])
         self.nsteps = r.randint(2, o.max_steps)
         self.t1 = self.t0 + self.nsteps * self.dt
         ops.append({"op": "model", "t0": q(self.t0), "t1": q(self.t1), "dt": q(self.dt), "comps": names, "inf": inf})
